@@ -116,15 +116,16 @@ var arena struct {
 	allowWrites bool
 }
 
-const arenaSize = 1 << 20
+const arenaSize = 1 << 15
 
+// A fresh buffer per request: the library may keep referring to a caller's slice after the call returns (the batch verifier
+// keeps the signature slices of cofactorless entries until Verify), so memory handed out for one request is never reused
+// for another.
 func arenaReset() {
 	arena.mu.Lock()
 	defer arena.mu.Unlock()
-	if arena.buf == nil {
-		arena.buf = make([]byte, arenaSize)
-		arena.snap = make([]byte, arenaSize)
-	}
+	arena.buf = make([]byte, arenaSize)
+	arena.snap = make([]byte, arenaSize)
 	arena.off = 0
 	arena.allowWrites = false
 }
